@@ -1,2 +1,1 @@
 import Driver.Round
-import Driver.C09
